@@ -40,7 +40,7 @@ func bgAnalyseFn(c *Ctx, fn *ssa.Function, name string) *bgInfo {
 		if !ok {
 			return
 		}
-		if cal := call.Call.StaticCallee(); cal != nil && cal.Pkg != nil && cal.Pkg.Pkg.Path() == "context" && cal.Name() == "WithCancel" && bi.wc == nil {
+		if cal := call.Call.StaticCallee(); cal != nil && cal.Pkg != nil && cal.Pkg.Pkg.Path() == "context" && fname(cal) == "WithCancel" && bi.wc == nil {
 			bi.wc = call
 		}
 	})
@@ -65,7 +65,7 @@ func bgAnalyseFn(c *Ctx, fn *ssa.Function, name string) *bgInfo {
 					return
 				}
 				cal := call.Call.StaticCallee()
-				if cal == nil || cal.Pkg == nil || !strings.HasSuffix(cal.Pkg.Pkg.Path(), "errgroup") || cal.Name() != "WithContext" {
+				if cal == nil || cal.Pkg == nil || !strings.HasSuffix(cal.Pkg.Pkg.Path(), "errgroup") || fname(cal) != "WithContext" {
 					return
 				}
 				arg := call.Call.Args[0]
@@ -97,7 +97,7 @@ func bgAnalyseFn(c *Ctx, fn *ssa.Function, name string) *bgInfo {
 				bi.spawnAt[f] = x
 			}
 		case *ssa.Call:
-			if cal := x.Call.StaticCallee(); cal != nil && cal.Name() == "Go" && cal.Pkg != nil && strings.HasSuffix(cal.Pkg.Pkg.Path(), "errgroup") && len(x.Call.Args) == 2 {
+			if cal := x.Call.StaticCallee(); cal != nil && fname(cal) == "Go" && cal.Pkg != nil && strings.HasSuffix(cal.Pkg.Pkg.Path(), "errgroup") && len(x.Call.Args) == 2 {
 				if f := resolveFuncValue(x.Call.Args[1], 0); f != nil && f.Parent() == fn {
 					bi.spawned = append(bi.spawned, f)
 					bi.spawnHow[f] = "errgroup"
@@ -128,7 +128,7 @@ func bgAnalyseFn(c *Ctx, fn *ssa.Function, name string) *bgInfo {
 			if cal == nil || cal.Blocks == nil {
 				return
 			}
-			if cal.Parent() == fn || (rootFn(cal).Pkg == rootFn(fn).Pkg && cal.Parent() == nil && !token.IsExported(cal.Name()) && len(seen) < 12) {
+			if cal.Parent() == fn || (rootFn(cal).Pkg == rootFn(fn).Pkg && cal.Parent() == nil && !token.IsExported(fname(cal)) && len(seen) < 12) {
 				add(cal)
 			}
 		})
@@ -224,7 +224,7 @@ func ruleBgCtx(c *Ctx, r *R, names ...string) {
 					if fieldOfChan(call.Call.Value) == stored {
 						cancelIn = in
 					}
-					if cal := call.Call.StaticCallee(); cal != nil && cal.Name() == "Wait" && cal.Signature.Recv() != nil {
+					if cal := call.Call.StaticCallee(); cal != nil && fname(cal) == "Wait" && cal.Signature.Recv() != nil {
 						waitIn = in
 					}
 				})
@@ -458,7 +458,7 @@ func timerDrainIdiom(in ssa.Instruction) bool {
 	for _, g := range guardsOf(in.Block()) {
 		if v, val := g.boolVal(); !val {
 			if call, ok := v.(*ssa.Call); ok {
-				if cal := call.Call.StaticCallee(); cal != nil && cal.Name() == "Stop" && cal.Signature.Recv() != nil && isNamedType(cal.Signature.Recv().Type(), "time", "Timer") {
+				if cal := call.Call.StaticCallee(); cal != nil && fname(cal) == "Stop" && cal.Signature.Recv() != nil && isNamedType(cal.Signature.Recv().Type(), "time", "Timer") {
 					stopFalse = true
 				}
 			}
@@ -491,7 +491,7 @@ func ruleWgCount(c *Ctx, r *R, names ...string) {
 		var add *ssa.Call
 		instrs(bi.fn, func(b *ssa.BasicBlock, i int, in ssa.Instruction) {
 			if call, ok := in.(*ssa.Call); ok {
-				if cal := call.Call.StaticCallee(); cal != nil && cal.Name() == "Add" && cal.Signature.Recv() != nil && isNamedType(cal.Signature.Recv().Type(), "sync", "WaitGroup") {
+				if cal := call.Call.StaticCallee(); cal != nil && fname(cal) == "Add" && cal.Signature.Recv() != nil && isNamedType(cal.Signature.Recv().Type(), "sync", "WaitGroup") {
 					add = call
 				}
 			}
@@ -517,7 +517,7 @@ func ruleWgCount(c *Ctx, r *R, names ...string) {
 			}
 			isDone := false
 			if firstDefer != nil {
-				if cal := firstDefer.Call.StaticCallee(); cal != nil && cal.Name() == "Done" {
+				if cal := firstDefer.Call.StaticCallee(); cal != nil && fname(cal) == "Done" {
 					isDone = true
 				}
 			}
